@@ -724,6 +724,8 @@ def run(ck: Checker) -> None:
     ck.guard("R-DETACH-ALL", lambda: r_detach_all(ck))
     ck.guard("R-ID-DET", lambda: r_id_det(ck))
     ck.guard("R-GET-FORM", lambda: r_get_form(ck))
+    from .c04 import r_deser_id
+    ck.guard("R-DESER-ID", lambda: r_deser_id(ck))  # deserialization returns the registered node and evicts nothing that was registered before
     ck.guard("R-PRESENCE", lambda: T.r_presence(ck))
     ck.guard("R-FLAGS-TT", lambda: T.r_flags_tt(ck))  # the id digest reads the comparable properties through the generated accessor
     ck.guard("R-TYPES-CACHE", lambda: T.r_types_cache(ck))
